@@ -269,6 +269,105 @@ class AofWrites(workloads.Pool):
         return self.z.next()
 
 
+def restart_history(ctx):
+    """A second run of the server on the same directory: the file is opened for appending, where it is positioned is whatever the
+    first run left (its last entry ran in database N).  SAVE before the restart, so that the live dataset is the one the file replays to;
+    then writes in database 0, in N and elsewhere; the whole file is re-executed on an empty server at the end."""
+    import time
+    n = 0
+    for lastdb, firstdb in ((5, 0), (0, 3), (2, 2), (7, 0)):
+        srv = ctx.new_server(name='aof', appendonly=True)
+        tr = ctx.new_trace('aof-restart%d' % n)
+        tr.emit({'k': 'config', 'aof': 1})
+        tail = AofTail(os.path.join(srv.dir, 'appendonly.aof'))
+        s = Session(srv, tr)
+
+        def enrich(ev, tail=tail):
+            entries, partial = tail.new_entries()
+            ev['aof'] = [[list(x) for x in e] for e in entries]
+            if partial:
+                ev['aofpartial'] = 1
+        s.enrich = enrich
+        try:
+            c = s.open()
+            s.cmd(c, [b'SET', b'zero', b'0'])
+            s.cmd(c, [b'SELECT', str(lastdb).encode()])
+            s.cmd(c, [b'SET', b'k', b'first-run'])
+            s.cmd(c, [b'RPUSH', b'l', b'a', b'b'])
+            s.cmd(c, [b'SAVE'])
+            s.close(c)
+            srv.kill()
+            t0 = tr.now()
+            srv.start()
+            tr.emit({'k': 'restart', 't0': t0, 't1': tr.now() + 1})
+            c = s.open()
+            if firstdb:
+                s.cmd(c, [b'SELECT', str(firstdb).encode()])
+            s.cmd(c, [b'SET', b'after', b'second-run'])
+            s.cmd(c, [b'INCR', b'n'])
+            s.cmd(c, [b'SELECT', str(lastdb).encode()])
+            s.cmd(c, [b'APPEND', b'k', b'+'])
+            s.cmd(c, [b'SELECT', b'9'])
+            s.cmd(c, [b'SADD', b's', b'x'])
+            live = dump_all(srv.port)
+            fresh = ctx.new_server(name='aofreplay')
+            cl = Client(fresh.port, timeout=10.0)
+            for e in tail.all:
+                cl.call(e, 5.0)
+            cl.close()
+            rep = dump_all(fresh.port)
+            fresh.kill()
+            tr.emit({'k': 'aofreplay', 'ok': 1 if rep == live else 0, 'entries': len(tail.all),
+                     'detail': '' if rep == live else 'databases differing: %s' % sorted(d for d in set(live) | set(rep) if live.get(d) != rep.get(d))})
+        except ServerDied:
+            pass
+        s.close_all()
+        ctx.validate(tr, label='aof-restart%d' % n)
+        srv.kill()
+        n += 1
+    return n
+
+
+def expiry_history(ctx):
+    """Commands whose outcome depends on a key having gone away by its deadline (open finding aof_expiry_unlogged: the file holds no
+    trace of an expiry, so a quick replay runs them on top of the old value)."""
+    import time
+    srv = ctx.new_server(name='aof', appendonly=True)
+    tr = ctx.new_trace('aof-expiry')
+    tr.emit({'k': 'config', 'aof': 1})
+    tail = AofTail(os.path.join(srv.dir, 'appendonly.aof'))
+    s = Session(srv, tr)
+
+    def enrich(ev):
+        entries, partial = tail.new_entries()
+        ev['aof'] = [[list(x) for x in e] for e in entries]
+        if partial:
+            ev['aofpartial'] = 1
+    s.enrich = enrich
+    try:
+        c = s.open()
+        for a in ([b'SET', b'k', b'old', b'PX', b'60'], [b'SET', b'n', b'5', b'PX', b'60'], [b'RPUSH', b'l', b'a'], [b'PEXPIRE', b'l', b'60'], [b'SET', b'stay', b'1']):
+            s.cmd(c, a)
+        time.sleep(0.1)
+        for a in ([b'SETNX', b'k', b'new'], [b'GET', b'k'], [b'INCR', b'n'], [b'RPUSH', b'l', b'b'], [b'LRANGE', b'l', b'0', b'-1'], [b'SET', b'k', b'x', b'XX'], [b'APPEND', b'stay', b'2']):
+            s.cmd(c, a)
+        live = dump_all(srv.port)
+        fresh = ctx.new_server(name='aofreplay')
+        cl = Client(fresh.port, timeout=10.0)
+        for e in tail.all:
+            cl.call(e, 5.0)
+        cl.close()
+        rep = dump_all(fresh.port)
+        fresh.kill()
+        tr.emit({'k': 'aofreplay', 'ok': 1 if rep == live else 0, 'entries': len(tail.all), 'detail': ''})
+    except ServerDied:
+        pass
+    s.close_all()
+    ctx.validate(tr, label='aof-expiry')
+    srv.kill()
+    return 1
+
+
 class DbHopWrites(workloads.Pool):
     """Where the file is positioned: few keys, equal names in every database, one command of every LOGGING CLASS — logged
     verbatim, logged by outcome (SPOP, XADD *), addressed to every database (FLUSHALL) or the whole selected one (FLUSHDB),
@@ -352,6 +451,9 @@ def run(ctx):
     else:
         for path in ('direct', 'multi', 'script-lit', 'script-keys', 'script-pcall', 'script-sha'):
             forms_history(ctx, 'forms-' + path, path, F)
+    nr = restart_history(ctx)
+    ctx.extra_cov['restart_histories'] = nr
+    expiry_history(ctx)
     nf = script_flows(ctx)
     ctx.extra_cov['script_flows'] = nf
     ctx.extra_cov['distinct_cases'] = n + (4 if ctx.quick else 6) + nf
